@@ -55,8 +55,11 @@ def cases(ctx):
             text = text.replace("\n", eol)
         hist = []
         for _ in range(rng.choice([0, 0, 1, 2, 3])):
-            k = rng.choice(["other", "v2", "bad", "same", "shifted", "shifted"])
-            if k == "other":
+            k = rng.choice(["other", "v2", "bad", "same", "shifted", "shifted", "younger", "program"])
+            if k in ("younger", "program"):
+                # a text parsed by a parser object built after this one (directly, or inside Program.from_source)
+                hist.append([k, syntax.render(syntax.gen_program(rng, max_cmds=4), random.Random(rng.randrange(10 ** 9)), "wild")])
+            elif k == "other":
                 hist.append(["other", syntax.render(syntax.gen_program(rng, max_cmds=3), random.Random(rng.randrange(10 ** 9)), "wild")])
             elif k == "v2":
                 hist.append(["v2", V2_TEXT])
@@ -131,7 +134,16 @@ def run_tree(ctx, case):
     for k, t in case["history"]:
         kinds.append(k)
         try:
-            parser.parse(t)
+            if k == "younger":
+                Parser().parse(t)
+            elif k == "program":
+                from mpilot.program import Program
+                try:
+                    Program.from_source(t)
+                except Exception:
+                    pass
+            else:
+                parser.parse(t)
         except SyntaxError:
             pass
         except Exception as e:
